@@ -62,7 +62,8 @@ cdef class StratifiedSFCNNPS(NNPS):
 
     def __cinit__(self, int dim, list particles, double radius_scale = 2.0,
             int ghost_layers = 1, domain=None, bint fixed_h = False,
-            bint cache = False, bint sort_gids = False, int num_levels = 1):
+            bint cache = False, bint sort_gids = False, int num_levels = 1,
+            bint asymmetric = True):
 
         cdef int narrays = len(particles)
 
